@@ -289,6 +289,10 @@ def report(ctx, events, rejects, nontrivial=None, key=None, rule="", exhaustive=
     """print KNOWN-FINDING / VIOLATION lines, write evidence, return exit code"""
     known = load_known()
     violations, known_hits = [], {}
+    if os.environ.get("VERIF_DEBUG"):
+        with open(os.path.join(VERIF, ".work", "rejects-%s.ndjson" % ctx.id), "w") as f:
+            for idx in sorted(rejects):
+                f.write(json.dumps(dict(reasons=rejects[idx], ev=events[idx])) + "\n")
     repdir = os.path.join(VERIF, "evidence", "replays")
     for idx in sorted(rejects):
         ev = events[idx]
